@@ -140,20 +140,34 @@ structure FileSt where
   numBlocks : Nat
   deriving Repr
 
-/-- `ReadTo`: `len(buf) != BlockSize` panics; `a >= numBlocks` panics; `pread(fd, buf, a*BlockSize)`
-whose byte count is ignored (a short read leaves the tail of `buf` as it was).
-`Write`: same two checks, `pwrite(fd, v, a*BlockSize)`. Offsets are modelled in unbounded `Nat`;
+/-- `ReadTo`: `len(buf) != BlockSize` panics; `a >= numBlocks` panics; then `pread` is repeated from where the last one
+stopped until the buffer is full, and a `pread` that transfers nothing (the end of the file) panics (repair 256b1fc; before
+it the byte count was ignored and a short read left the tail of `buf` as it was).  The modelled OS hands over all the bytes
+that exist at once, so the loop is: fewer than `len(buf)` bytes exist at that offset ⇒ panic.  `readLoop` below models an OS
+that returns ANY positive number of bytes per call.
+`Write`: same two checks, `pwrite(fd, v, a*BlockSize)` repeated likewise (the modelled file always takes everything). Offsets are modelled in unbounded `Nat`;
 the `uint64`/`int64` conversions are exact for `numBlocks < 2^51` (hypothesis of the theorems). -/
 def fileImpl (bs : Nat) : Impl FileSt where
   readTo d a buf :=
     if buf.length ≠ bs then none
     else if a ≥ d.numBlocks then none
+    else if (pread d.file (a * bs) buf.length).length < buf.length then none
     else some (goCopy buf (pread d.file (a * bs) buf.length))
   write d a v :=
     if v.length ≠ bs then none
     else if a ≥ d.numBlocks then none
     else some { d with file := pwrite d.file (a * bs) v }
   size d := d.numBlocks
+
+/-- The transfer loop of `ReadTo` against an OS that hands over at most `k + 1` bytes on the call whose limit is `k` (one limit
+per call; `none`: a call transferred nothing, or the list of limits ran out).  `acc` is what has been read so far. -/
+def readLoop (file : Bytes) (off len : Nat) : List Nat → Bytes → Option Bytes
+  | [], acc => if acc.length = len then some acc else none
+  | k :: ks, acc =>
+    if acc.length = len then some acc
+    else
+      let got := pread file (off + acc.length) (min (k + 1) (len - acc.length))
+      if got.length = 0 then none else readLoop file off len ks (acc ++ got)
 
 /-- `NewFileDisk(path, numBlocks)` on a regular file whose current content is `img`
 (`[]` for a file that `O_CREAT` just created): resize unless the length is already right. -/
